@@ -106,6 +106,7 @@ fn("pool/base.py::Pool._create_connection", abstract=True, cls="QueuePool", para
    modifies=["self.slots", "self.pending", "self.mine"],
    ensures=["self.slots == old(self.slots) + 1", "self.pending == old(self.pending) - 1", "self.mine == old(self.mine) - 1"],
    may_raise={"BaseException": "True"},
+   exc_ensures={"BaseException": ["self.slots == old(self.slots)", "self.pending == old(self.pending)", "self.mine == old(self.mine)"]},
    notes="creates one _ConnectionRecord: the caller's claim becomes a slot; or raises (anything, incl. KeyboardInterrupt / greenlet exits from the creator) with nothing created and the claim still held")
 fn("pool/base.py::_ConnectionRecord.close", abstract=True, cls="_ConnectionRecord", params=["self", "pool"], returns="none",
    types={"pool": "QueuePool"},
